@@ -1,6 +1,6 @@
-(* C15 -- struct_cmp is the standard order on the full domain.  Holds for the
-   source with fixes/C15-struct-cmp-number-fallthrough.patch applied; on the
-   pinned source it is refuted (Findings.v). *)
+(* C15 -- struct_cmp is the standard order on the full domain [dom].  Holds for the
+   source since fix 24d7f1d (fixes/C15-struct-cmp-number-fallthrough.patch); before
+   it, two unequal numbers fell through to text comparison (witnesses in corpus/C15). *)
 From Coq Require Import ZArith NArith PeanoNat List Bool Lia Sorted.
 From PL.C15 Require Import ModelStd ModelPrelude GenStructCmp ProofsStd ProofsSort ProofsGen.
 Import ListNotations.
